@@ -90,3 +90,59 @@ contract('matcher.BaseMatcher.addValue',
                                        label='wildcard-is-the-only-child-with-its-attribute')],
                      locals={'arbkey_info': 'Opt[%s]' % CHILD, 'k': 'Opt[str]', 'ci': 'Ref[info.BaseInfo]', 'i': 'int'},
                      modifies=[])])
+
+SLOT_IDX = 'slot_search(self.type, 0, type_, name)'
+S_ATTR = 'val(self.type._children[%s][1].attribute)' % SLOT_IDX
+contract('matcher.BaseMatcher.addSection',
+         params={'type_': 'str', 'name': 'Opt[str]', 'sectvalue': 'Ref[matcher.SectionValue]'},
+         modifies=['self._values', 'self._sectionnames'],
+         inst=[SLOT_IDX],
+         ensures=[Clause("implies(name is not None and name != '', val(name) not in old(self._sectionnames) and "
+                         'self._sectionnames == updated(old(self._sectionnames), val(name), val(name)))',
+                         carries='C01', label='name-recorded-and-was-unused'),
+                  Clause("implies(name is None or name == '', self._sectionnames == old(self._sectionnames))",
+                         label='unnamed-leaves-names'),
+                  Clause('%s >= 0' % SLOT_IDX, carries='C01,C12', label='a-slot-takes-the-section'),
+                  Clause('self._values == updated(old(self._values), %s, self._values[%s])' % (S_ATTR, S_ATTR),
+                         carries='C01,C02', label='only-the-slot-attribute-changes'),
+                  Clause('section_added(old(self._values)[%s], self._values[%s], self.type._children[%s][1], sectvalue)'
+                         % (S_ATTR, S_ATTR, SLOT_IDX), carries='C01,C02', label='section-stored-in-file-order')],
+         raises=[Raise('ZConfig.ConfigurationError',
+                       when="(name is not None and name != '' and val(name) in self._sectionnames) or %s < 0 or "
+                            "(not (self.type._children[%s][1].maxOccurs > 1) and "
+                            "not is_alt(self._values[%s], 'none'))" % (SLOT_IDX, SLOT_IDX, S_ATTR),
+                       carries='C01', label='name-reused-or-no-slot-or-slot-full')])
+
+contract('matcher.SectionMatcher.__init__',
+         params={'info': 'Ref[info.SectionInfo]', 'type_': 'Ref[info.SectionType]', 'name': 'Opt[str]',
+                 'handlers': 'Opt[Ref[list:handlers]]'},
+         requires=[Clause('invariant_of(type_)', label='RI-of-the-section-type')],
+         ensures=[Clause('self.name == name and self.type == type_ and self.info == info', label='stores'),
+                  Clause("(name is not None and name != '') or info.name == '*'", carries='C01', label='unnamed-only-in-star-slot'),
+                  Clause('implies(handlers is not None, self.handlers == val(handlers))', carries='C16',
+                         label='handler-list-shared-by-reference'),
+                  Clause('len(keys(self._sectionnames)) == 0', label='no-names-used-yet'),
+                  Clause('forall(lambda i: implies(0 <= i and i < len(type_._children), '
+                         'slot_empty(type_._children[i][1], self._values)))', carries='C01,C02,C13',
+                         label='every-attribute-starts-empty')],
+         raises=[Raise('ZConfig.ConfigurationError', when="(name is None or name == '') and info.name != '*'",
+                       carries='C01', label='must-be-named')])
+
+CSLOT = 'slot_search(self.type, 0, val(type_.name), name)'
+contract('matcher.BaseMatcher.createChildMatcher',
+         params={'type_': 'Ref[info.SectionType]', 'name': 'Opt[str]'}, returns='Ref[matcher.SectionMatcher]',
+         requires=[Clause('type_.name is not None', label='concrete-type-has-a-name'),
+                   Clause('invariant_of(type_)', label='RI-of-the-child-type')],
+         inst=[CSLOT], fresh_result=True,
+         ensures=[Clause('%s >= 0 and result.info == self.type._children[%s][1]' % (CSLOT, CSLOT),
+                         carries='C01,C12', label='slot-found'),
+                  Clause('allowed_name(self.type._children[%s][1].name, name)' % CSLOT, carries='C01', label='name-rule'),
+                  Clause('result.type == type_ and result.name == name', label='child-for-that-type'),
+                  Clause('result.handlers == self.handlers', carries='C16', label='shares-the-handler-list'),
+                  Clause('fresh(result)', carries='C13', label='new-matcher'),
+                  Clause('forall(lambda i: implies(0 <= i and i < len(type_._children), '
+                         'slot_empty(type_._children[i][1], result._values)))', carries='C01,C02',
+                         label='child-starts-empty')],
+         raises=[Raise('ZConfig.ConfigurationError',
+                       when='%s < 0 or not allowed_name(self.type._children[%s][1].name, name)' % (CSLOT, CSLOT),
+                       carries='C01,C12', label='no-slot-or-name-not-allowed')])
